@@ -35,7 +35,33 @@ class TorchCalls(TorchOps):
         if name == "functools.partial":
             return PartialV(args[0], tuple(args[1:]), tuple(kwargs.items()))
         if name == "itertools.accumulate":
-            return self.accumulate(args[0], node)
+            extra = set(kwargs) - {"initial"}
+            init = kwargs.get("initial")
+            if extra or len(args) > 1 or (init is not None and self.const_int(init) != 0 and not (isinstance(init, Const) and init.v is None)):
+                return self.unk("accumulate with a custom function / initial value", node)
+            return self.accumulate(args[0], node, initial=init is not None and not (isinstance(init, Const) and init.v is None))
+        if name in ("itertools.chain", "itertools.chain.from_iterable"):
+            if kwargs:
+                return self.unk("chain with keywords", node)
+            if name.endswith("from_iterable"):
+                if len(args) != 1:
+                    return self.unk("chain.from_iterable arity", node)
+                outer = self.to_list(args[0], "list", node)
+                if not isinstance(outer, ListV):
+                    return self.unk("chain.from_iterable of a non-sequence", node)
+                pieces = list(outer.items) if outer.items is not None else [("*", outer)]
+            else:
+                pieces = list(args)
+            out = None
+            for p_ in pieces:
+                if isinstance(p_, tuple) and len(p_) == 2 and p_[0] == "*":
+                    part = self.flatten_once(p_[1], node)
+                else:
+                    part = self.to_list(p_, "list", node)
+                if not isinstance(part, ListV):
+                    return self.unk("chain over a non-sequence", node)
+                out = part if out is None else self.concat_lists(out, part, node)
+            return out if out is not None else ListV(items=())
         if name == "itertools.pairwise":
             lst = self.to_list(args[0], "list", node)
             if isinstance(lst, ListV) and lst.items is not None:
@@ -245,7 +271,7 @@ class TorchCalls(TorchOps):
         if isinstance(v, SetV):
             if v.items is not None and len(v.items) == 0:
                 return Const(0)
-            return TV(kind="pyint", note="len(set)")
+            return TV(kind="pyint", note="len(set)", origin=frozenset(self.atoms_of(v)))
         if isinstance(v, DictV):
             if v.items is not None:
                 return Const(len(v.items))
@@ -268,15 +294,19 @@ class TorchCalls(TorchOps):
                 return ListV(items=tuple(Const(i) for i in r))
         stop = ts[0] if len(ts) == 1 else (ts[1] if len(ts) >= 2 else None)
         start = ts[0] if len(ts) >= 2 else None
+        step = ts[2] if len(ts) >= 3 else None
+        if len(args) >= 3 and (step is None or step.poly is None):
+            return self.unk("range with a step that is not a closed-form integer", node)
         full_rows = stop is not None and stop.size_of == "R" and (start is None or self.const_int(args[0]) == 0) and len(args) < 3
         self._range_n = getattr(self, "_range_n", 0) + 1
         ivar = f"i#{self._range_n}"
-        self.ev("range", node, var=ivar, stop_poly=stop.poly if stop is not None else None, start_poly=start.poly if start is not None else None, nargs=len(args))
+        self.ev("range", node, var=ivar, stop_poly=stop.poly if stop is not None else None, start_poly=start.poly if start is not None else None, nargs=len(args),
+                step_poly=step.poly if step is not None else None)
         elem = TV(kind="pyint", idx_of="R" if full_rows else None, note="range-index", poly=Poly.sym(ivar) if not full_rows else None,
                   p=True, origin=(stop.origin if stop is not None else frozenset()) | {"loop-index"})
         return ListV(items=None, elem=elem, kind="list", over="R" if full_rows else None,
                      order=(("range", repr(stop.poly) if stop is not None and stop.poly is not None else "?"), "same"),
-                     length=stop if len(args) == 1 else None)
+                     length=stop if len(args) == 1 else (stop if len(args) == 2 and self.const_int(args[0]) == 0 else None))
 
     def to_list(self, v, kind, node):
         if isinstance(v, ListV):
@@ -365,7 +395,30 @@ class TorchCalls(TorchOps):
             return DictV(items=None, keys=lst, val=val, ordered=True)
         return self.unk("fromkeys", node)
 
-    def accumulate(self, v, node):
+    def flatten_once(self, v, node):
+        """Concatenation of the members of a sequence of sequences."""
+        outer = self.to_list(v, "list", node)
+        if not isinstance(outer, ListV):
+            return self.unk("flatten of a non-sequence", node)
+        if outer.items is not None:
+            out = ListV(items=())
+            for it in outer.items:
+                part = self.to_list(it, "list", node)
+                if not isinstance(part, ListV):
+                    return self.unk("flatten of a non-sequence member", node)
+                out = self.concat_lists(out, part, node)
+            return out
+        inner = outer.elem
+        if inner is None:
+            return ListV(items=())
+        part = self.to_list(inner, "list", node)
+        if not isinstance(part, ListV):
+            return self.unk("flatten of a non-sequence member", node)
+        if part.items is not None:
+            part = ListV(items=None, elem=self.set_elem(SetV(items=part.items)), kind="list", order=part.order)
+        return replace(part, kind="list", head=None, tail=())
+
+    def accumulate(self, v, node, initial=False):
         lst = self.to_list(v, "list", node)
         if isinstance(lst, ListV):
             e = lst.elem if lst.items is None else self.set_elem(SetV(items=lst.items))
@@ -465,6 +518,9 @@ class TorchCalls(TorchOps):
                 elif lst.order is not None:
                     order = lst.order
                 new = ListV(items=None, elem=args[0] if e is None else join(e, args[0]), kind=lst.kind, order=order, over=lst.over)
+                if lst.items is None and lst.elem is not None and I.join_depth == 0:
+                    # appended after the summarised part, outside any abstract loop: remember the exact tail
+                    new = replace(new, head=lst.head if lst.tail else lst.elem, tail=lst.tail + (args[0],))
             I.rebind(node.func.value, new, env, node)
             return NONE
         if name in ("extend",):
